@@ -79,19 +79,39 @@ def api_calls(config):
     return apis
 
 
+VARIANTS_UNIT = "@ct_variants.c"      # /verif/fixtures/ct_variants.c: public-parameter variations of the maintainers' harness
+
+
+def variant_api_calls(config):
+    """Library entry points called from variants() / main() of fixtures/ct_variants.c."""
+    p = sxlib.Program(sxlib.extract(config, os.path.join(VERIF, "fixtures", VARIANTS_UNIT[1:])))
+    apis = {}
+    for fn in ("variants", "main"):
+        f = p.functions.get(fn)
+        if f is None:
+            raise AnalysisBroken("fixtures/ct_variants.c has no %s() any more" % fn)
+        for el, c in f.all_calls():
+            n = callee_name(c)
+            if n and n.startswith("secp256k1_") and n in p.protos:
+                apis.setdefault(n, c[2])
+    return apis
+
+
 def analyse(config, tier, opt="O0"):
     ll = irbuild.build(config, units=("ctime_tests.c", "secp256k1.c"), opt=opt)
-    runs = [("plain", ["--root", "main"]), ("randomized-context", ["--root", "main", "--taint-blinding"])]
+    llv = irbuild.build(config, units=(VARIANTS_UNIT, "secp256k1.c"), opt=opt)
+    runs = [("plain", ["--root", "main"], ll), ("randomized-context", ["--root", "main", "--taint-blinding"], ll),
+            ("variants", ["--root", "main"], llv)]
     res = {}
     def one(r):
-        name, args = r
+        name, args, mod = r
         jo = os.path.join(WORK, "irx.%s.%s.%d.json" % (config, name, os.getpid()))
         try:
-            return name, run_irx(ll, args, jo)
+            return name, run_irx(mod, args, jo)
         finally:
             if os.path.exists(jo):
                 os.remove(jo)
-    with ThreadPoolExecutor(max_workers=2) as ex:
+    with ThreadPoolExecutor(max_workers=3) as ex:
         for name, d in ex.map(one, runs):
             res[name] = d
     return res
@@ -111,7 +131,15 @@ def obligations_for(config, tier):
     if plain["unknown_externals"]:
         raise AnalysisBroken("R-CT: calls to external functions without a model: %s" % ", ".join(plain["unknown_externals"]))
     obs = []
+    apis_main = apis
+    apis_var = variant_api_calls(config)
+    if len(apis_var) < 20:
+        raise AnalysisBroken("R-CT: fixtures/ct_variants.c calls only %d library entry points (floor 20)" % len(apis_var))
+    if res["variants"]["source_markers"] < 15 or res["variants"]["unknown_externals"]:
+        raise AnalysisBroken("R-CT: variants harness: %d secret markers reached, unmodelled externals %s"
+                             % (res["variants"]["source_markers"], res["variants"]["unknown_externals"]))
     for mode, d in sorted(res.items()):
+        apis = apis_var if mode == "variants" else apis_main
         by_api = {}
         orphan = []
         for s in d["sinks"]:
@@ -124,8 +152,10 @@ def obligations_for(config, tier):
         for api, loc in sorted(apis.items()):
             sinks = by_api.get(api, [])
             oid = "R-CT:%s:%s" % (mode, api)
-            text = ("no value derived from a secret marked in ctime_tests.c%s may steer a branch, an address, a copy length, a division or an "
-                    "indirect call anywhere under %s" % (" or from the context's blinding state" if mode != "plain" else "", api))
+            text = ("no value derived from a secret marked in %s%s may steer a branch, an address, a copy length, a division or an "
+                    "indirect call anywhere under %s" % ("fixtures/ct_variants.c (optional arguments present, explicit nonce functions with caller data, 2 and 3 "
+                                                         "MuSig signers with tweaks, context randomized through the API)" if mode == "variants" else "ctime_tests.c",
+                                                         " or from the context's blinding state" if mode == "randomized-context" else "", api))
             if not sinks:
                 obs.append(Obligation("R-CT", oid, loc.replace(REPO + "/", ""), api, text, True,
                                       "no sink in any function on any path in any calling context (%s pass)" % mode, props=PROPS))
@@ -142,5 +172,6 @@ def obligations_for(config, tier):
     st = {"config": config, "apis": len(apis), "positive_control_sinks": nctl,
           "plain": {k: plain[k] for k in ("executions", "instructions", "objects", "select_on_secret", "declassify_calls", "source_markers", "functions_in_module")},
           "randomized": {k: res["randomized-context"][k] for k in ("executions", "instructions", "select_on_secret")},
+          "variants": {k: res["variants"][k] for k in ("executions", "instructions", "source_markers", "declassify_calls")}, "variant_apis": len(apis_var),
           "wall_s": round(time.time() - t0, 1)}
     return obs, st
